@@ -53,10 +53,13 @@ type World struct {
 	pos      uint64 // next journal position
 	watch    map[string]bool
 	nextDisk int
+	allocRep map[Loc]*allocRep
 }
 
+type allocRep struct{ base, stride, k uint64 }
+
 func newWorld() *World {
-	return &World{diskOf: map[Loc]*SymDisk{}, mutexes: map[Loc]bool{}, watch: map[string]bool{}, pos: 1}
+	return &World{diskOf: map[Loc]*SymDisk{}, mutexes: map[Loc]bool{}, watch: map[string]bool{}, pos: 1, allocRep: map[Loc]*allocRep{}}
 }
 
 func (w *World) event(ev Event) { w.events = append(w.events, ev) }
@@ -278,6 +281,11 @@ func rtStubs(m map[string]stubFn) {
 		return nil
 	}
 	m[RT+"NumSpawned"] = func(e *Engine, fn *ssa.Function, a []Value) Value { return c64(uint64(len(e.spawned))) }
+	m[RT+"AllocRep"] = func(e *Engine, fn *ssa.Function, a []Value) Value {
+		l := a[0].(IfaceV).v.(Ptr).loc
+		e.world.allocRep[l] = &allocRep{base: a[1].(*Term).C, stride: a[2].(*Term).C}
+		return nil
+	}
 	m[RT+"Mark"] = func(e *Engine, fn *ssa.Function, a []Value) Value {
 		e.world.event(Event{Kind: EvMark, A: a[0].(*Term), Site: e.cur})
 		return nil
@@ -487,7 +495,7 @@ func envStubs(m map[string]stubFn) {
 		if e.cfg.Params["realwal"] == 1 {
 			return e.callBody(fn, a, nil)
 		}
-		blk := a[1].(*Term)
+		blk := e.uniqueValue(a[1].(*Term))
 		d := walDisk(e, fn, a)
 		if !e.decide(Cmp("bvult", blk, d.size)) {
 			e.end("panic", "journal read beyond the end of the disk at "+e.cur)
@@ -507,7 +515,7 @@ func envStubs(m map[string]stubFn) {
 		}
 		for i := uint64(0); i < n; i++ {
 			u := s.cells[s.off.C+i].Load().(StructV)
-			addr := u[0].(*Term)
+			addr := e.uniqueValue(u[0].(*Term))
 			if !e.decide(Cmp("bvult", addr, d.size)) {
 				e.end("panic", "journal write beyond the end of the disk at "+e.cur)
 			}
@@ -568,6 +576,24 @@ func envStubs(m map[string]stubFn) {
 			return e.callBody(fn, a, nil)
 		}
 		bm := fieldLoc(a[0], "bitmap", recvElem(fn)).Load().(SliceV)
+		if rep, ok := e.world.allocRep[a[0].(Ptr).loc]; ok {
+			// representative mode (bound R_addr): the k-th allocation returns 0 or base + k*stride
+			cand := c64(rep.base + rep.k*rep.stride)
+			rep.k++
+			fail := e.freshVar("allocfail", BoolS)
+			obj := IfaceV{t: fn.Signature.Recv().Type(), v: a[0]}
+			if e.decide(fail) {
+				e.world.event(Event{Kind: EvAlloc, A: c64(0), Obj: obj, Site: e.callerSite()})
+				return c64(0)
+			}
+			byteIdx := Bin("bvadd", bm.off, Bin("bvlshr", cand, c64(3)))
+			bit := Const(8, 1<<(cand.C&7))
+			old := bm.sa.Load(byteIdx)
+			e.Assume(Cmp("=", Bin("bvand", old, bit), Const(8, 0)))
+			bm.sa.Store(byteIdx, Bin("bvor", old, bit))
+			e.world.event(Event{Kind: EvAlloc, A: cand, Obj: obj, Site: e.callerSite()})
+			return cand
+		}
 		n := e.freshVar("alloc", BV(64))
 		if e.decide(Cmp("=", n, c64(0))) {
 			e.world.event(Event{Kind: EvAlloc, A: c64(0), Obj: IfaceV{t: fn.Signature.Recv().Type(), v: a[0]}, Site: e.callerSite()})
